@@ -373,10 +373,19 @@ func TestC30(t *testing.T) {
 	for _, kex := range kexes {
 		var base mitmOutcome
 		for try := 0; try < 3; try++ {
+			t0 := time.Now()
 			base = runMITM(kex, nil, 10*time.Second)
 			if base.dataOK {
+				// the idle window that decides "blocked" follows the machine's current speed: a clean
+				// handshake took d, so nothing is declared idle before 25*d without any byte moving
+				if d := 25 * time.Since(t0); d > idle {
+					idle = d
+				}
 				break
 			}
+		}
+		if idle > 8*time.Second {
+			idle = 8 * time.Second
 		}
 		if !base.dataOK || base.clientErr != nil || base.serverErr != nil {
 			c.Inconclusive(fmt.Sprintf("baseline handshake through the MITM failed for %s: %v / %v", kex, base.clientErr, base.serverErr))
@@ -425,7 +434,14 @@ func TestC30(t *testing.T) {
 			defer wg.Done()
 			for i := range ch {
 				f := mineA[i].f
-				aouts[i] = runMITM(mineA[i].kex, &f, idle)
+				w := idle
+				for try := 0; try < 3; try++ {
+					aouts[i] = runMITM(mineA[i].kex, &f, w)
+					if aouts[i].applied {
+						break
+					}
+					w *= 3 // the link went idle before the position was even reached (starved goroutines): wait longer
+				}
 			}
 		}()
 	}
